@@ -338,3 +338,48 @@ fn probe_c02_lookback_constant_vs_config() {
     }
     println!("C02 max_past_epochs=8, message 6 epochs late -> {:?}", bob.process_message(&late).map(|r| format!("{r:?}")).map_err(|e| e.to_string()));
 }
+
+/// F16 candidate: any kind-445 wrapper carrying a handshake message of an already left epoch and an *earlier* created_at than
+/// the commit applied there triggers a rollback — here: the applied commit itself, re-wrapped by anyone who holds that epoch's
+/// exporter secret (every member of that epoch, including members removed since).
+#[test]
+fn probe_c07_rewrapped_applied_commit_triggers_rollback() {
+    use nostr::{Tag, TagKind, Timestamp};
+    let (alice, bob, alice_keys, _bob_keys, gid) = two_party();
+    let e0 = bob.get_group(&gid).unwrap().unwrap().epoch;
+    // Alice rotates her key: commit C (epoch e0 -> e0+1); Bob applies it.
+    let upd = alice.self_update(&gid).unwrap();
+    alice.merge_pending_commit(&gid).unwrap();
+    let r = bob.process_message(&upd.evolution_event);
+    println!("F16 bob applies C: {:?}", r.as_ref().map(|x| format!("{:?}", x).chars().take(30).collect::<String>()).map_err(|e| e.to_string()));
+    let e1 = bob.get_group(&gid).unwrap().unwrap().epoch;
+    // A message in the new epoch, stored by Bob.
+    let mut rumor = create_test_rumor(&alice_keys, "sent after the commit");
+    let mid = rumor.id();
+    let mev = alice.create_message(&gid, rumor).unwrap();
+    let _ = bob.process_message(&mev).unwrap();
+    println!("F16 before: epoch {} -> {}, message state {:?}", e0, e1, bob.get_message(&gid, &mid).unwrap().unwrap().state);
+    // Re-wrap C: same MLS bytes, same epoch-e0 exporter secret, fresh ephemeral signer, earlier timestamp.
+    let secret = bob.storage().get_group_exporter_secret(&gid, e0).unwrap().expect("epoch e0 secret");
+    let bytes = crate::util::decrypt_with_exporter_secret(&secret, &upd.evolution_event.content).unwrap();
+    let sk = nostr::SecretKey::from_slice(secret.secret.as_ref()).unwrap();
+    let k = Keys::new(sk);
+    let content = nostr::nips::nip44::encrypt(k.secret_key(), &k.public_key, &bytes, nostr::nips::nip44::Version::default()).unwrap();
+    let h = upd.evolution_event.tags.iter().find(|t| t.kind() == TagKind::h()).unwrap().clone();
+    let earlier = Timestamp::from_secs(upd.evolution_event.created_at.as_secs() - 5);
+    let rewrapped = EventBuilder::new(Kind::MlsGroupMessage, content)
+        .tag(Tag::custom(TagKind::h(), [h.content().unwrap().to_string()]))
+        .custom_created_at(earlier)
+        .sign_with_keys(&Keys::generate())
+        .unwrap();
+    let r2 = bob.process_message(&rewrapped);
+    println!("F16 bob processes the re-wrapped copy: {:?}", r2.as_ref().map(|x| format!("{:?}", x).chars().take(40).collect::<String>()).map_err(|e| e.to_string()));
+    let g = bob.get_group(&gid).unwrap().unwrap();
+    println!("F16 after: epoch {}, message state {:?}", g.epoch, bob.get_message(&gid, &mid).unwrap().map(|m| m.state));
+    // the original, legitimate events delivered again
+    let r3 = bob.process_message(&upd.evolution_event);
+    let r4 = bob.process_message(&mev);
+    println!("F16 re-delivery of C: {:?}", r3.as_ref().map(|x| format!("{:?}", x).chars().take(40).collect::<String>()).map_err(|e| e.to_string()));
+    println!("F16 re-delivery of M: {:?}", r4.as_ref().map(|x| format!("{:?}", x).chars().take(40).collect::<String>()).map_err(|e| e.to_string()));
+    println!("F16 final: epoch {}, message state {:?}", bob.get_group(&gid).unwrap().unwrap().epoch, bob.get_message(&gid, &mid).unwrap().map(|m| m.state));
+}
